@@ -32,7 +32,7 @@ impl UciOption for HashOption {
     const NAME: &'static str = "Hash";
     const DEF: UciOptionType = UciOptionType::Spin {
         default: crate::engine::options::defaults::HASH_SIZE,
-        min: 0,
+        min: 1,
         max: 1024,
     };
 }
